@@ -12,6 +12,7 @@ Operations of a thread program (small tuples):
 The barriers restrict which schedules the *harness* explores; the model has no barrier (it allows more).
 """
 import io
+import sys
 
 from rich.console import Console
 from rich.live import Live
@@ -44,8 +45,9 @@ class Scn:
                 f"overflow={self.overflow}, init={self.init}, progs={self.progs})")
 
     # ---- request encoding (decoders in lean/RichModel/Drv/C11.lean)
-    def enc_cfg(self):
-        return ",".join(str(x) for x in [KINDS[self.kind], self.width, self.height, int(self.record), int(self.transient), OVERFLOWS[self.overflow]])
+    def enc_cfg(self, stop_tail_unlocked=1):
+        return ",".join(str(x) for x in [KINDS[self.kind], self.width, self.height, int(self.record), int(self.transient),
+                                         OVERFLOWS[self.overflow], int(stop_tail_unlocked)])
 
     def enc_init(self):
         return enc_str_list(self.init)
@@ -89,20 +91,36 @@ def trace_live_render(lr, sched):
 
     class Traced(base):
         def position_cursor(self):
-            sched.sync("pos")
-            r = base.position_cursor(self)
-            sched.log("pos", _height_of(str(r), 1))
-            return r
+            sched.tl.reading = "pos"          # the event is the (first) read of `_shape` inside this call
+            try:
+                return base.position_cursor(self)
+            finally:
+                if getattr(sched.tl, "reading", None) == "pos":   # `_shape` was never read: still one event
+                    sched.tl.reading = None
+                    sched.sync("pos")
+                    sched.log("pos", "?")
 
         def restore_cursor(self):
-            sched.sync("rst")
-            r = base.restore_cursor(self)
-            sched.log("rst", _height_of(str(r), 0))
-            return r
+            sched.tl.reading = "rst"
+            try:
+                return base.restore_cursor(self)
+            finally:
+                if getattr(sched.tl, "reading", None) == "rst":
+                    sched.tl.reading = None
+                    sched.sync("rst")
+                    sched.log("rst", "?")
 
         @property
         def _shape(self):
-            return self.__dict__.get("_shape_v")
+            kind = getattr(sched.tl, "reading", None)
+            if kind is None:
+                return self.__dict__.get("_shape_v")
+            sched.tl.reading = None
+            sched.sync(kind)
+            v = self.__dict__.get("_shape_v")
+            # rows erased: position_cursor erases max(height, 1) rows, restore_cursor `height` rows
+            sched.log(kind, None if v is None else (max(v[1], 1) if kind == "pos" else v[1]))
+            return v
 
         @_shape.setter
         def _shape(self, v):
@@ -150,11 +168,11 @@ def run_real(scn, chooser, line_mode=False):
     console._record_buffer = TracedList(sched, "c", getattr(console, "_record_buffer", []))
     disp = None
     if scn.kind == "live":
-        disp = Live(FrameR(scn.init), console=console, auto_refresh=False, transient=scn.transient, redirect_stdout=False,
-                    redirect_stderr=False, vertical_overflow=scn.overflow)
+        disp = Live(FrameR(scn.init), console=console, auto_refresh=False, transient=scn.transient, redirect_stdout=True,
+                    redirect_stderr=True, vertical_overflow=scn.overflow)
     elif scn.kind == "progress":
-        disp = Progress(CountCol(Faults()), console=console, auto_refresh=False, transient=scn.transient, redirect_stdout=False,
-                        redirect_stderr=False, get_time=lambda: 0.0)
+        disp = Progress(CountCol(Faults()), console=console, auto_refresh=False, transient=scn.transient, redirect_stdout=True,
+                        redirect_stderr=True, get_time=lambda: 0.0)
         for d in scn.init:
             disp.add_task(d)
     if disp is not None:
@@ -210,14 +228,33 @@ def run_real(scn, chooser, line_mode=False):
 
     res = Result()
     res.deadlock = None
-    for tid in range(n):
-        sched.spawn(tid, worker(tid))
+    # sys.stdout / sys.stderr are redirected through FileProxy objects by start(): observe them on stand-ins
+    saved = (sys.stdout, sys.stderr)
+    fake_out, fake_err = io.StringIO(), io.StringIO()
+    sys.stdout, sys.stderr = fake_out, fake_err
     try:
-        sched.run(chooser)
-    except Deadlock as e:
-        res.deadlock = e.args[0]
-    except RuntimeError as e:  # SchedulerStuck: the code under test never came back to a yield point / never finished
-        res.deadlock = "stuck: " + str(e)
+        for tid in range(n):
+            sched.spawn(tid, worker(tid))
+        try:
+            sched.run(chooser)
+        except Deadlock as e:
+            res.deadlock = e.args[0]
+        except RuntimeError as e:  # SchedulerStuck: the code under test never came back to a yield point / never finished
+            res.deadlock = "stuck: " + str(e)
+
+        def depth(f, base):
+            d = 0
+            while f is not base and d < 50:
+                f = getattr(f, "rich_proxied_file", None)
+                d += 1
+                if f is None:
+                    return -1
+            return d
+
+        res.stdout_depth = depth(sys.stdout, fake_out)
+        res.stderr_depth = depth(sys.stderr, fake_err)
+    finally:
+        sys.stdout, sys.stderr = saved
     res.sched = sched
     res.choices = list(sched.choices)
     res.events = list(sched.events)
@@ -237,7 +274,16 @@ def run_real(scn, chooser, line_mode=False):
             res.export = "err:" + type(e).__name__
     res.shape = None if disp is None else disp._live_render.__dict__.get("_shape_v")
     res.hooks = len(console._render_hooks)
-    res.started = None if disp is None else bool(disp._started)
+    res.started = None if disp is None else bool(getattr(disp, "_started", False))
+    # after the run (harness thread, unscheduled): what does one more print write?
+    res.after = None
+    if res.deadlock is None and not res.exc:
+        n_w = len(f.writes)
+        try:
+            console.print(LinesR(["zzafter"]))
+            res.after = "".join(t for _, t in f.writes[n_w:])
+        except BaseException as e:  # noqa: BLE001
+            res.after = "err:" + type(e).__name__
     return res
 
 
